@@ -10,6 +10,10 @@ import (
 	"time"
 )
 
+// solverGlitch: the solver process answered with a cancellation error that belongs to an earlier command; the pipe
+// is out of step and the process must be restarted (handled by the worker loop, which re-runs the path).
+type solverGlitch string
+
 type Solver struct {
 	bin       string
 	args      []string
@@ -150,6 +154,9 @@ func (s *Solver) check() string {
 	}
 	s.Time += time.Since(t0)
 	s.Queries++
+	if strings.HasPrefix(line, "(error") && strings.Contains(line, "canceled") {
+		panic(solverGlitch(line))
+	}
 	switch line {
 	case "sat":
 		s.Sat++
@@ -206,6 +213,9 @@ func (s *Solver) CheckAndValues(extra *Term, ts []*Term) (string, []*big.Int) {
 				s.Stale = append(s.Stale, l)
 			}
 			l = s.readLine()
+		}
+		if strings.HasPrefix(l, "(error") && strings.Contains(l, "canceled") {
+			panic(solverGlitch(l))
 		}
 		// accumulate until parens balance
 		for strings.Count(l, "(") > strings.Count(l, ")") {
